@@ -70,24 +70,24 @@ func H_c19_equiv() {
 	_, _ = la, lj
 	var bodies []hcl.Body
 	// 0: plain
-	b0, ok := verifNative(verifCat(string(laX), "n = 5\nb {\n  c = \"", y, "\"\n}\nb {\n  c = \"", z, "\"\n}\n"), "v0")
+	b0, ok := verifNative(verifCat(string(laX), "n = 18446744073709551617\nb {\n  c = \"", y, "\"\n}\nb {\n  c = \"", z, "\"\n}\n"), "v0")
 	verif_assert(ok, "the plain spelling parses")
 	// 1: reordered, comments, odd spacing, single-line block
-	b1, ok1 := verifNative(verifCat("# k\nb { c = \"", y, "\" }\n\n  n=5 // t\nb {\n c   =   \"", z, "\"\n}\n/* m */\n", string(laX)), "v1")
+	b1, ok1 := verifNative(verifCat("# k\nb { c = \"", y, "\" }\n\n  n=18446744073709551617 // t\nb {\n c   =   \"", z, "\"\n}\n/* m */\n", string(laX)), "v1")
 	verif_assert(ok1, "the reordered spelling parses")
 	// 2: JSON
-	jf, jd := json.Parse(verifCat("{", string(ljX), "\"n\":5,\"b\":[{\"c\":\"", y, "\"},{\"c\":\"", z, "\"}]}"), "v2")
+	jf, jd := json.Parse(verifCat("{", string(ljX), "\"n\":18446744073709551617,\"b\":[{\"c\":\"", y, "\"},{\"c\":\"", z, "\"}]}"), "v2")
 	if jd.HasErrors() {
 		verif_note(jd[0].Summary + ": " + jd[0].Detail)
 	}
 	verif_assert(!jd.HasErrors(), "the JSON spelling parses")
 	// 3: two files merged
 	f1, ok3 := verifNative(verifCat(string(laX), "b {\n c = \"", y, "\"\n}\n"), "v3a")
-	f2, ok4 := verifNative(verifCat("n = 5\nb {\n c = \"", z, "\"\n}\n"), "v3b")
+	f2, ok4 := verifNative(verifCat("n = 18446744073709551617\nb {\n c = \"", z, "\"\n}\n"), "v3b")
 	verif_assert(ok3, "the first part parses")
 	verif_assert(ok4, "the second part parses")
 	// 4: dynamic block over the same values
-	b4, ok5 := verifNative(verifCat(string(laX), "n = 5\ndynamic \"b\" {\n  for_each = [\"", y, "\", \"", z, "\"]\n  content {\n    c = b.value\n  }\n}\n"), "v4")
+	b4, ok5 := verifNative(verifCat(string(laX), "n = 18446744073709551617\ndynamic \"b\" {\n  for_each = [\"", y, "\", \"", z, "\"]\n  content {\n    c = b.value\n  }\n}\n"), "v4")
 	verif_assert(ok5, "the dynamic-block spelling parses")
 	if !ok || !ok1 || jd.HasErrors() || !ok3 || !ok4 || !ok5 {
 		return
@@ -104,7 +104,8 @@ func H_c19_equiv() {
 			first = v
 			// the value itself
 			verif_assert(v.GetAttr("a").AsString() == string([]byte{x}), "attribute a decodes to its text")
-			verif_assert(v.GetAttr("n").RawEquals(cty.NumberIntVal(5)), "attribute n decodes to its number")
+			big65, _ := cty.ParseNumberVal("18446744073709551617") // 2^64+1: needs more than 64 bits of mantissa
+			verif_assert(v.GetAttr("n").RawEquals(big65), "attribute n decodes to its number, exactly")
 			bl := v.GetAttr("b")
 			verif_assert(bl.LengthInt() == 2, "both blocks are decoded")
 			if bl.LengthInt() == 2 {
@@ -142,4 +143,50 @@ func verifStubJSONUnmarshal(data []byte, v any) error {
 	}
 	*p = string(data[1 : len(data)-1])
 	return nil
+}
+
+// H_c19_nested_dynamic: nested repeated blocks (g { i { v = .. } i { v = .. } }) against the
+// spelling with a dynamic block inside a dynamic block's content, both using the same
+// iterator name (the inner one shadows the outer): same decoded value for arbitrary strings.
+func H_c19_nested_dynamic() {
+	hclsyntax.VerifRuneSeg = true
+	y, z := verifPlain("Y"), verifPlain("Z")
+	sameName := nondet_bool("same-iterator-name")
+	spec := hcldec.ObjectSpec{
+		"g": &hcldec.BlockListSpec{TypeName: "g", Nested: hcldec.ObjectSpec{
+			"i": &hcldec.BlockListSpec{TypeName: "i", Nested: hcldec.ObjectSpec{
+				"v": &hcldec.AttrSpec{Name: "v", Type: cty.String},
+			}},
+		}},
+	}
+	b0, ok0 := verifNative(verifCat("g {\n  i {\n    v = \"", y, "\"\n  }\n  i {\n    v = \"", z, "\"\n  }\n}\n"), "s")
+	inner := "jt"
+	if sameName {
+		inner = "it"
+	}
+	b1, ok1 := verifNative(verifCat("dynamic \"g\" {\n  for_each = [[\"", y, "\", \"", z, "\"]]\n  iterator = it\n  content {\n    dynamic \"i\" {\n      for_each = it.value\n      iterator = ", inner, "\n      content {\n        v = ", inner, ".value\n      }\n    }\n  }\n}\n"), "d")
+	verif_assert(ok0, "the static spelling parses")
+	verif_assert(ok1, "the nested dynamic spelling parses")
+	if !ok0 || !ok1 {
+		return
+	}
+	v0, d0 := hcldec.Decode(b0, spec, nil)
+	v1, d1 := hcldec.Decode(Expand(b1, nil), spec, nil)
+	verif_assert(!d0.HasErrors(), "the static spelling is valid")
+	verif_assert(!d1.HasErrors(), "the nested dynamic spelling is valid")
+	if d0.HasErrors() || d1.HasErrors() {
+		return
+	}
+	verif_assert(v1.RawEquals(v0), "nested dynamic blocks decode to the same value as the blocks they stand for")
+	g := v0.GetAttr("g")
+	verif_assert(g.LengthInt() == 1, "one outer block")
+	if g.LengthInt() == 1 {
+		is := g.Index(cty.NumberIntVal(0)).GetAttr("i")
+		verif_assert(is.LengthInt() == 2, "two inner blocks")
+		if is.LengthInt() == 2 {
+			verif_assert(is.Index(cty.NumberIntVal(0)).GetAttr("v").AsString() == string([]byte{y}), "first inner value")
+			verif_assert(is.Index(cty.NumberIntVal(1)).GetAttr("v").AsString() == string([]byte{z}), "second inner value")
+		}
+	}
+	verif_witness()
 }
